@@ -85,7 +85,7 @@ def _eq(case: Dict[str, Any], res: CaseResult) -> None:
                         raise
                     res.viol("error", f"raised {type(e).__name__}: {str(e)[:300]}" + tag)
                     return
-                if val != ref_val or type(val) is not type(ref_val):
+                if prog.foreign_objects(val) or val != ref_val or not pc.same_container_kind(val, ref_val):
                     res.viol("value", f"returned {val!r}, reference {ref_val!r}" + tag)
                 got = pc.obs_counter(prog.observations(ex))
                 # setup sites run in the first call only
